@@ -84,23 +84,29 @@ def plan(tier, seed, avoid):
         if n == N:
             k = max(k, 12)
         specs += [{"part": "exh", "size": n, "slice": i, "of": k} for i in range(k)]
-    nt = 6 if tier == "quick" else 16
-    specs += [{"part": "tokens", "n": 150 if tier == "quick" else 1500, "shard": i} for i in range(nt)]
+    nt = 8 if tier == "quick" else 16
+    specs += [{"part": "tokens", "n": 400 if tier == "quick" else 1500, "shard": i} for i in range(nt)]
     nr = 8 if tier == "quick" else 16
-    specs += [{"part": "random", "n": 400 if tier == "quick" else 3200, "shard": i} for i in range(nr)]
+    specs += [{"part": "random", "n": 1500 if tier == "quick" else 3200, "shard": i} for i in range(nr)]
     return specs
 
 
 def floors(tier):
-    return {"evaluations": 3000000, "distinct_nontrivial": 3000,
-            "observed.route.direct": 3000, "observed.route.parse": 500,
-            "observed.scan.compared": 1000000, "observed.scan.kind.error": 100000, "observed.scan.kind.end": 50000,
-            "observed.scan.multi_token": 50000,
-            "observed.tokens.scanners": 300, "observed.tokens.texts": 20000,
-            "observed.random.expressions": 1000,
+    # quick tier on the unchanged tree (3 findings open) observes about 3x these numbers
+    return {"evaluations": 8000000, "distinct_nontrivial": 5000,
+            "observed.route.direct": 3000, "observed.route.parse": 2000,
+            "observed.scan.compared": 5000000, "observed.scan.kind.error": 1000000,
+            "observed.scan.kind.end": 500000, "observed.scan.kind.empty-token": 1000000,
+            "observed.scan.multi_token": 1000000,
+            "observed.tokens.scanners": 1000, "observed.tokens.texts": 150000,
+            "observed.tokens.texts_with_two_token_kinds": 30000,
+            "observed.tokens.route_parse": 300, "observed.tokens.route_direct": 500,
+            "observed.random.expressions": 6000, "observed.random.with_escaped_metachar": 3000,
+            "observed.random.with_redundant_group": 1500,
             "observed.oracle.re_and_glushkov_agree": 3000,
-            "observed.ops.alt": 1000, "observed.ops.cat": 1000, "observed.ops.star": 1000,
-            "observed.ops.plus": 1000, "observed.ops.opt": 1000, "observed.ops.cls": 1000, "observed.ops.dot": 1000}
+            "observed.ops.alt": 2500, "observed.ops.cat": 2500, "observed.ops.star": 2000,
+            "observed.ops.plus": 2000, "observed.ops.opt": 2500, "observed.ops.cls": 2500,
+            "observed.ops.dot": 1500, "observed.ops.lit": 5000, "observed.ops.grp": 600}
 
 
 # ---- strings -----------------------------------------------------------------------
@@ -322,7 +328,7 @@ class Mon:
     def violation(self, summary, case):
         if len(self.viol) < 6:
             rs = {"part": "case", "asts": case.get("asts") or [case["ast"]], "texts": case.get("texts") or [case.get("text", "")],
-                  "route": case.get("route", "both")}
+                  "route": case.get("route", "both"), "enumerated": case.get("enumerated", False)}
             self.viol.append({"summary": summary, "case": case, "replay_spec": rs})
 
     def result(self):
@@ -388,7 +394,7 @@ def check_single(mon, eng, t, strs, table_fn, member, routes, budget, seen_patte
                 return
             acc = sum(1 for s in strs if tab[s])
             nontrivial = 0 < acc < len(strs) and t[0] not in ("lit", "dot", "cls")
-        case = {"ast": t, "pattern": pattern, "route": route}
+        case = {"ast": t, "pattern": pattern, "route": route, "enumerated": enumerated}
         what = pattern if route == "parse" else None
         if route == "direct":
             try:
@@ -444,10 +450,12 @@ def check_single(mon, eng, t, strs, table_fn, member, routes, budget, seen_patte
                 break
         if nontrivial:
             mon.hashes.append(h([route, t]))
-        if len(mon.samples) < 2 and nontrivial and rxref.size(t) >= 4 and route == "parse":
+        if len(mon.samples) < 2 and nontrivial and route == "parse" and not tab[""] and \
+                rxref.has(t, ("alt",)) and rxref.has(t, ("star", "plus")) and rxref.size(t) >= 5:
             ex = [s for s in strs if tab[s]][:4]
+            multi = [s for s in strs if len(s) >= 4 and len(ref_scan(fns, s)[0]) > 1][-1:] or [strs[-1]]
             mon.samples.append({"pattern": pattern, "ast": t, "dfa_states": nstates, "accepted_examples": ex,
-                                "scan_example": [strs[-1], ref_scan(fns, strs[-1])[:2]]})
+                                "scan_example": [multi[0], ref_scan(fns, multi[0])[:2]]})
 
 
 # ---- shards ------------------------------------------------------------------------
@@ -645,7 +653,7 @@ def check_tokens(mon, eng, asts, names, texts, routes, enumerated=None):
         if why:
             mon.discard(why + ":tokens-" + route)
             continue
-        case = {"asts": asts, "patterns": pats, "route": route}
+        case = {"asts": asts, "patterns": pats, "route": route, "enumerated": list(enumerated or [])}
         eng.steps[0] = 0
         eng.limit[0] = BUDGET_RANDOM
         try:
@@ -704,8 +712,9 @@ def run_case(mon, eng, spec):
     """replay: one expression (or token set) on explicit texts"""
     asts, texts = spec["asts"], spec["texts"]
     routes = ("direct", "parse") if spec.get("route", "both") == "both" else (spec["route"],)
+    enum = spec.get("enumerated", False)
     if len(asts) > 1:
-        check_tokens(mon, eng, asts, ["t%d" % j for j in range(len(asts))], texts, routes)
+        check_tokens(mon, eng, asts, ["t%d" % j for j in range(len(asts))], texts, routes, enum or None)
         return
     t = asts[0]
     space = string_space()
@@ -719,7 +728,8 @@ def run_case(mon, eng, spec):
         tab = {s: orc.member(s) for s in strs}
         return None if orc.disagree is not None else tab
 
-    check_single(mon, eng, t, strs, table_fn, (lambda s: holder["orc"].member(s)), routes, BUDGET_RANDOM, None)
+    check_single(mon, eng, t, strs, table_fn, (lambda s: holder["orc"].member(s)), routes, BUDGET_RANDOM, None,
+                 enumerated=bool(enum))
 
 
 def run_shard(spec):
